@@ -35,3 +35,27 @@ def run(F, ctx):
         ctx.site("strict equality on Value / Tuple", c.where(), ok=False)
         ctx.violation("provenance::unification::find_matching_tuples:R-C23-b:strict-equality", "find_matching_tuples compares with the derived `==` of Value / Tuple, which distinguishes Int32(7) from Int64(7); aggregate and arithmetic columns are Int64 while literals that fit are Int32, so a fully bound lookup misses the stored row: a derived tuple is reported blocked (`No matching tuples in score`) and a negation blocker is missed", c.where())
     ctx.end_rule()
+
+    # ---- c: the wire handler gives the explainer the derived facts
+    from ..core import op_local
+    ctx.rule("R-C23-c", ".why_not over the wire builds its proof context with the derived facts of the graph, as .why does", floor=2)
+    H = "protocol::handler::QueryJob"
+    for (hn, consumer) in ((H + "::why_query", "build_proof_tree"), (H + "::why_not_query", "explain_why_not")):
+        h = F.fn(hn)
+        cons = [c for c in h.normal_calls() if (c.resolved or "").endswith("::" + consumer)]
+        wd = [c for c in h.normal_calls() if re.search(r"ProofContext(::<.*>)?::with_derived_data$", c.resolved or "")]
+        ev = [c for c in h.normal_calls() if (c.resolved or "").endswith("StorageEngine::execute_and_get_context")]
+        # execute_and_get_context may be called from a closure (and_then(|t| ...))
+        for n_ in F.with_closures(hn):
+            if n_ != hn:
+                ev += [c for c in F.fn(n_).normal_calls() if (c.resolved or "").endswith("StorageEngine::execute_and_get_context")]
+        if not cons:
+            raise CheckError("%s no longer calls %s (anchor moved)" % (hn, consumer))
+        wdd = set()
+        for c in wd:
+            wdd |= h.derive({c.dst["l"]}, through_calls=True, stop_calls=[re.compile(r"explain_why_not$|build_proof_tree$")])
+        ok = bool(wd) and bool(ev) and all(any(op_local(a) in wdd for a in c.args) for c in cons)
+        ctx.site("%s: context handed to %s carries derived data from an evaluation of the graph" % (hn.split("::")[-1], consumer), h.where(), ok=ok, with_derived_data_calls=len(wd), evaluations=len(ev))
+        if not ok:
+            ctx.violation("%s:R-C23-c:context-without-derived-data" % hn, "%s builds the proof context from rules and base data only: every clause whose body mentions a relation defined by rules is reported blocked (`No matching tuples in a` although a(1) is derivable), and a negated derived atom is never seen as the blocker" % hn.split("::")[-1], h.where())
+    ctx.end_rule()
